@@ -845,7 +845,8 @@ class ImportPattern(Pattern):
 
     def __init__(self):
         super().__init__(
-            r'^use +(?P<module>\w+)(?: *, *(?P<only>only *:)?'  # The use statement including an optional ``only``
+            r'^use(?:(?: *, *(?P<nature>intrinsic|non_intrinsic))? *:: *| +)'  # ``use``, optional module nature and ``::``
+            r'(?P<module>\w+)(?: *, *(?P<only>only *:)?'  # The module name including an optional ``only``
             r'(?P<imports>(?: *\w+\b *(?:=> *\w+|\(.*?\))? *,?)+))?',  # The optional list of names (w/ renames, ops)
             re.IGNORECASE
         )
@@ -896,7 +897,7 @@ class ImportPattern(Pattern):
 
         return ir.Import(
             module, symbols=as_tuple(symbols), rename_list=as_tuple(rename_list),
-            source=reader.source_from_current_line()
+            nature=match['nature'], source=reader.source_from_current_line()
         )
 
 
